@@ -223,6 +223,16 @@ func c02R2(h H) {
 			r.Unresolve("R2", "browse.directoryListing: no append of browse.FileInfo found")
 		}
 	}
+	// --- staticfiles: the same clause decided from what serveFile does (E10 file-server table)
+	{
+		t := fileServerTable(h)
+		var pos token.Pos
+		if fn := h.p.Func(sfPkg, "FileServer.serveFile"); fn != nil {
+			pos = fn.Pos()
+		}
+		r.Check(t.hidden == "" && t.other == "", "R2", "staticfiles.FileServer.serveFile/hidden-table", pos,
+			"evaluated against a modelled file system for every combination of hidden file, offered codings, existing and hidden siblings: a file on the hide list is never handed to http.ServeContent — not as the requested file (404) and not as its precompressed variant", sprintf("%d cases evaluated", t.cases), t.hidden, t.other)
+	}
 	// --- browse: archive members
 	if fn := h.fn("R2", brPkg, "Browse.ServeArchive"); fn != nil {
 		n := 0
